@@ -17,6 +17,7 @@ import (
 	jkltypes "github.com/jackalLabs/canine-chain/v4/types"
 	moduletestutil "github.com/jackalLabs/canine-chain/v4/types/module/testutil"
 	oracletypes "github.com/jackalLabs/canine-chain/v4/x/oracle/types"
+	storagemodule "github.com/jackalLabs/canine-chain/v4/x/storage"
 	"github.com/jackalLabs/canine-chain/v4/x/storage/keeper"
 	types "github.com/jackalLabs/canine-chain/v4/x/storage/types"
 	tmproto "github.com/tendermint/tendermint/proto/tendermint/types"
@@ -294,4 +295,22 @@ func TestVerifScenario_C01_rejected_proof_registers_prover(t *testing.T) {
 		return
 	}
 	fmt.Println("SCENARIO-OK a rejected submission left the file, the proof table and the balances alone")
+}
+
+// C19: exporting the module state and importing it into a fresh store must preserve the proof records.
+func TestVerifScenario_C19_proof_records_not_in_genesis(t *testing.T) {
+	k, _, ctx := sSetup(t)
+	owner, prover := sAddr(1), sAddr(2)
+	f := types.UnifiedFile{Merkle: []byte("merkle"), Owner: owner.String(), Start: 5, Expires: 0, FileSize: 1000, ProofInterval: 100, MaxProofs: 3, Note: "{}"}
+	f.AddProver(ctx, k, prover.String())
+	exported := storagemodule.ExportGenesis(ctx, *k)
+	k2, _, ctx2 := sSetup(t)
+	storagemodule.InitGenesis(ctx2, *k2, *exported)
+	file, found := k2.GetFile(ctx2, f.Merkle, f.Owner, f.Start)
+	_, hasRecord := k2.GetProof(ctx2, prover.String(), f.Merkle, f.Owner, f.Start)
+	if !found || len(file.Proofs) != 1 || !hasRecord {
+		fmt.Printf("SCENARIO-VIOLATION after export and import the file is found=%v with %d listed prover(s), but the prover's proof record exists=%v (FileProof/value/ is neither exported nor imported)\n", found, len(file.Proofs), hasRecord)
+		return
+	}
+	fmt.Println("SCENARIO-OK proof records survive export and import")
 }
